@@ -206,6 +206,8 @@ ALPHABET = [
     ("MN", 2, 3, [2], True, [(2, 1, None, None)]),
     ("ME", 1, 1, None, True, [(1, 4, None, None)]),
     ("MN", 1, 3, [1], False, [(1, 2, None, (4, False))]),   # attribute merge fails naturally when u sums to 4 mod 5
+    ("BA", 2, [(3, 4, None, None), (3, 9, None, None)]),    # class 3 drained to zero observations by optimize
+    ("AD", 1, (1, 9, None, None)),                           # drains class 1 of track 1
     ("LK", 0, None, None),
     ("LK", 1, 1, None),
     ("FU",),
@@ -225,9 +227,49 @@ def gen_exhaustive(shard_counts, length=3):
     return out
 
 
+# the same alphabet over LARGE ids: values that differ from themselves mod 2^8, 2^16, 2^32 (a routing that truncates the
+# id anywhere between the caller and the shard shows up), used with shard counts that do not divide those powers
+ID_MAPS = [
+    {1: 256, 2: 511, 3: 65535},
+    {1: 2 ** 32 + 1, 2: 2 ** 64 - 2, 3: 65536},
+    {1: 257, 2: 255, 3: 2 ** 32 + 1},
+]
+
+
+def remap_op(op, m):
+    f = lambda x: m.get(x, x)
+    k = op[0]
+    if k in ("BA", "AD", "NT"):
+        return (k, f(op[1])) + tuple(op[2:])
+    if k == "FE":
+        return (k, [f(x) for x in op[1]])
+    if k == "MO":
+        return (k, f(op[1]), f(op[2])) + tuple(op[3:])
+    if k in ("ME", "MN"):
+        return (k, f(op[1]), f(op[2])) + tuple(op[3:])
+    if k == "LK":
+        return (k, op[1], op[2], None if op[3] is None else f(op[3]))
+    return op
+
+
+def gen_big_pairs(shard_counts, maps, prefix="b"):
+    """all sequences of length 2 (+ shard_stats) over the alphabet with remapped (large) ids"""
+    out = []
+    k = 0
+    for mi in maps:
+        m = ID_MAPS[mi]
+        for n in shard_counts:
+            for a, b in itertools.product(range(len(ALPHABET)), repeat=2):
+                out.append(Script("S", "%s%d" % (prefix, k), [remap_op(ALPHABET[a], m), remap_op(ALPHABET[b], m), ("ST",)], shards=n,
+                                  meta={"family": "exhaustive-2-large-ids"}))
+                k += 1
+    return out
+
+
 def rand_spec(rng, poison_p=0.06):
     cls = rng.randint(1, 3)
-    oa = None if rng.random() < 0.2 else (7 if rng.random() < poison_p else rng.randint(0, 6))
+    r = rng.random()
+    oa = None if r < 0.2 else (7 if r < 0.2 + poison_p else (9 if r < 0.26 + poison_p else rng.randint(0, 6)))
     f = None if rng.random() < 0.5 else rng.randint(0, 9)
     upd = None if rng.random() < 0.5 else (rng.randint(0, 3), rng.random() < 0.08)
     return (cls, oa, f, upd)
@@ -271,8 +313,12 @@ def gen_random(seed, count, max_len):
     rng = random.Random(seed * 7919 + 13)
     out = []
     for k in range(count):
-        n = 1 + k % 5
+        n = 1 + k % 8
         ids = list(range(0, rng.choice([4, 6, 9])))
+        if k % 2 == 1:
+            # mix in large ids
+            big = [255, 256, 257, 511, 65535, 65536, 2 ** 32 + 1, 2 ** 64 - 2]
+            ids = ids[:3] + rng.sample(big, rng.choice([3, 5]))
         length = max_len if k == 0 else rng.randint(max_len // 4, max_len)
         ops = [rand_op(rng, ids) for _ in range(length)]
         # a sparse fail plan over the global invocation indices
@@ -341,7 +387,7 @@ def run(chk):
         return
     exhaustive = chk.tier == "thorough"
     if exhaustive:
-        small = gen_exhaustive((1, 2, 3))
+        small = gen_exhaustive((1, 2, 3)) + gen_big_pairs((2, 3, 4, 5, 6, 7, 8), (0, 1, 2))
         rnd = gen_random(chk.seed, 40, 400)
     else:
         allx = gen_exhaustive((1, 2, 3))
@@ -350,7 +396,7 @@ def run(chk):
         # all sequences of length 2, as length-3 scripts ending in shard_stats, are always run
         pairs2 = [Script("S", "p%d_%d" % (n, i), [ALPHABET[a], ALPHABET[b], ("ST",)], shards=n, meta={"family": "exhaustive-2"})
                   for n in (1, 2, 3) for i, (a, b) in enumerate(itertools.product(range(len(ALPHABET)), repeat=2))]
-        small = small + pairs2
+        small = small + pairs2 + gen_big_pairs((3, 5, 6, 7), (0, 1)) + gen_big_pairs((8,), (2,), prefix="c")
         rnd = gen_random(chk.seed, 8, 400)
     scripts = small + rnd
     pairs = ts.run_scripts(scripts, tag="c09")
@@ -404,8 +450,8 @@ def run(chk):
         "distinct_nontrivial": len(nontrivial),
         "rule": "operation sequences over add_track (through the builder), add, fetch_tracks, merge_owned, merge_external, "
                 "merge_external_noblock+get, lookup, find_usable, clear, shard_stats, new_track; after EVERY operation the returned value, the "
-                "notification count and all shards are compared. thorough: all 25^3 sequences of length 3 over the alphabet x shards 1..3 and 40 "
-                "random sequences of 100-400 operations (ids 0..8, classes 1..4, shards 1..5, sparse fail plans); quick: all sequences of length 2 "
+                "notification count and all shards are compared. thorough: all 27^3 sequences of length 3 over the alphabet x shards 1..3, all length-2 sequences over three LARGE-id renamings (255..2^64-2) x shards 2..8, and 40 "
+                "random sequences of 100-400 operations (ids 0..8 mixed with large ids, classes 1..4, shards 1..8, sparse fail plans, draining and poisoned observations); quick: all sequences of length 2 over small ids x shards 1..3 and over two large-id renamings x shards 3,5,6,7 (+8) "
                 "(+shard_stats), a seeded sample of 2500 length-3 sequences, 8 random sequences up to 400 operations. "
                 "non-trivial = the sequence contains a failing operation (duplicate id, missing id, same track, callback failure); distinct by script",
         "samples": [s.line()[:300] for s in (scripts[0], scripts[len(small) // 2], scripts[-1])],
